@@ -3,8 +3,10 @@ package h
 import (
 	"context"
 	"errors"
+	"fmt"
 	"io"
 	"io/fs"
+	"os"
 	"path"
 	"sort"
 	"strings"
@@ -625,6 +627,28 @@ func (s *SimFS) View(e EngineSpec) fs.FS {
 
 var errWriter = errors.New("simio: injected writer failure")
 
+// writerErr: the error value a failing destination reports - a render must report a failed write whatever the
+// value is (a closed pipe, a reset connection and a cancelled request are failures like any other).
+func (w *SimWriter) werr() error {
+	switch w.spec.ErrKind {
+	case 1:
+		return io.ErrClosedPipe
+	case 2:
+		return syscall.EPIPE
+	case 3:
+		return fmt.Errorf("write to client: %w", io.ErrClosedPipe)
+	case 4:
+		return io.ErrShortWrite
+	case 5:
+		return io.EOF
+	case 6:
+		return context.Canceled
+	case 7:
+		return os.ErrDeadlineExceeded
+	}
+	return errWriter
+}
+
 // SimWriter records everything it accepts and fails as its spec says. It obeys the io.Writer contract.
 type SimWriter struct {
 	spec   WriterSpec
@@ -652,7 +676,7 @@ func (w *SimWriter) Write(p []byte) (int, error) {
 		return 0, nil // a full destination that keeps reporting, by count alone, that nothing was taken
 	}
 	if w.Fired {
-		return 0, errWriter
+		return 0, w.werr()
 	}
 	if w.spec.FailAt >= 0 && len(w.Got)+len(p) > w.spec.FailAt {
 		// this call would carry byte offset FailAt
@@ -664,10 +688,10 @@ func (w *SimWriter) Write(p []byte) (int, error) {
 				n = 0
 			}
 			w.Got = append(w.Got, p[:n]...)
-			return n, errWriter
+			return n, w.werr()
 		case 2:
 			w.Got = append(w.Got, p...)
-			return len(p), errWriter
+			return len(p), w.werr()
 		case 4:
 			// the failure is reported by the count alone: fewer bytes taken than offered, nil error (io.ErrShortWrite
 			// exists for this; bufio, io.Copy and bytes.Buffer.WriteTo all treat it as a failed write)
@@ -678,7 +702,7 @@ func (w *SimWriter) Write(p []byte) (int, error) {
 			w.Got = append(w.Got, p[:n]...)
 			return n, nil
 		default:
-			return 0, errWriter
+			return 0, w.werr()
 		}
 	}
 	w.Got = append(w.Got, p...)
